@@ -145,8 +145,8 @@ func c11(c *Ctx) {
 		procs := []int{1, 2, 16, 16}[(i/4)%4]
 		pre := []int{0, 1, 3}[(i/2)%3] // early-terminated visits before the concurrent phase
 		mode := modeFor(i, rng)
-		a := model.Gen(rng, []string{"small", "mid", "stored", "deep"}[i%4], model.GenOpts{Syn: true, NoBig: i%4 != 2, IDPrefix: "a-"})
-		b := model.Gen(rng, []string{"small", "one", "mid"}[rng.Intn(3)], model.GenOpts{Syn: rng.Intn(2) == 0, NoBig: true, IDPrefix: "b-"})
+		a := model.Gen(rng, []string{"small", "mid", "stored", "deep"}[i%4], model.GenOpts{Syn: true, Vec: VecBuild, NoBig: i%4 != 2, IDPrefix: "a-", VecSalt: 1 + i%997})
+		b := model.Gen(rng, []string{"small", "one", "mid"}[rng.Intn(3)], model.GenOpts{Syn: rng.Intn(2) == 0, Vec: VecBuild && rng.Intn(2) == 0, NoBig: true, IDPrefix: "b-", VecSalt: 1 + i%997})
 		forceDV(a, rng)
 		ma, mb := model.Build(a), model.Build(b)
 		drops := []map[uint32]bool{randDrops(rng, ma.NumDocs, 3), randDrops(rng, mb.NumDocs, 3)}
@@ -231,6 +231,9 @@ func c11round(c *Ctx, id string, rng *rand.Rand, g, procs, pre int, a, b *model.
 			for k := 0; k < nops; k++ {
 				t := ts[grng.Intn(len(ts))]
 				op := grng.Intn(12)
+				if VecBuild && grng.Intn(4) == 0 {
+					op = 12
+				}
 				if j == 0 && k == 0 {
 					op = 11 // one merge per round for sure
 				}
@@ -265,6 +268,9 @@ func c11round(c *Ctx, id string, rng *rand.Rand, g, procs, pre int, a, b *model.
 						oracle.CheckThesaurus(r, tag, t.seg, t.m, oracle.ThesOpts{UnknownNames: []string{"nothes"}, UnknownTerms: []string{"unk"}})
 						oracle.CheckDictionary(r, tag, t.seg, t.m, grng, true)
 						r.Inc("op_thesaurus_dict", 1)
+					case 12:
+						checkVectors(c, tag, t.seg, t.m, grng)
+						r.Inc("op_vector_search", 1)
 					case 11:
 						// the shared segments as inputs of a merge
 						out := c.Scratch.Path("c11m")
@@ -289,6 +295,9 @@ func c11round(c *Ctx, id string, rng *rand.Rand, g, procs, pre int, a, b *model.
 						oracle.CheckPostings(r, tag+"/merged", o, mm, oracle.PostOpts{MaxTerms: 6})
 						oracle.CheckStored(r, tag+"/merged", o, mm, 1)
 						oracle.CheckThesaurus(r, tag+"/merged", o, mm, oracle.ThesOpts{})
+						if VecBuild {
+							checkVectors(c, tag+"/merged", o, mm, grng)
+						}
 						r.Inc("op_merge", 1)
 					}
 				})
